@@ -22,10 +22,13 @@ def run_mutant(mut, args):
         shutil.copytree(args.repo, repo, ignore=shutil.ignore_patterns(".git", "__pycache__", "*.egg-info", "fixtures"))
         target = os.path.join(repo, "trie", mut["file"])
         src = open(target).read()
-        if src.count(mut["old"]) != 1:
-            res["status"] = "PATTERN-NOT-FOUND" if mut["old"] not in src else "PATTERN-AMBIGUOUS"
-            return res
-        open(target, "w").write(src.replace(mut["old"], mut["new"]))
+        if "src" in mut:
+            open(target, "w").write(mut["src"])
+        else:
+            if src.count(mut["old"]) != 1:
+                res["status"] = "PATTERN-NOT-FOUND" if mut["old"] not in src else "PATTERN-AMBIGUOUS"
+                return res
+            open(target, "w").write(src.replace(mut["old"], mut["new"]))
         r = subprocess.run(["/venv/bin/python", "-c", "import trie, trie.hexary, trie.binary, trie.smt, trie.branches, trie.fog, trie.iter"],
                            cwd=repo, env=dict(os.environ, PYTHONPATH=repo), capture_output=True, text=True)
         if r.returncode != 0:
@@ -49,6 +52,8 @@ def run_mutant(mut, args):
             out = os.path.join(scratch, "out-" + prop)
             os.makedirs(out)
             env = dict(os.environ, VERIF_REPO=repo, VERIF_OUT=out, VERIF_SEED=str(args.seed))
+            if getattr(args, "cases", None):
+                env["VERIF_CASES"] = str(args.cases)
             t = time.time()
             r = subprocess.run([os.path.join(HERE, "check.py"), prop, "--tier", args.tier],
                                cwd=HERE, env=env, capture_output=True, text=True)
